@@ -2,6 +2,7 @@ import Yaql.Model.OpTable
 import Yaql.Gen.OpTables
 import Yaql.Props.C02Order
 import Yaql.Props.C02Levels
+import Yaql.Props.C02
 /-!
 C02, generated-table layer: what the LIVE yaql objects contain equals what the model computes.
 
@@ -56,5 +57,43 @@ theorem live_names_disjoint :
     NamesDisjoint (funcsOf legacyTable).pdict ∧ NamesDisjoint (funcsOf legacyDelegatesTable).pdict :=
   ⟨namesDisjoint_of_check _ (by decide +kernel), namesDisjoint_of_check _ (by decide +kernel),
    namesDisjoint_of_check _ (by decide +kernel), namesDisjoint_of_check _ (by decide +kernel)⟩
+
+
+/-! The tree-layer theorems instantiated for the live tables. -/
+section
+open Yaql.Syntax Yaql.Props.C02
+
+theorem live_no_amb :
+    NoAmb (Cfg.ofTable defaultTable false) ∧ NoAmb (Cfg.ofTable defaultDelegatesTable true) ∧
+    NoAmb (Cfg.ofTable legacyTable false) ∧ NoAmb (Cfg.ofTable legacyDelegatesTable true) :=
+  ⟨noAmb_of_check _ (by decide +kernel), noAmb_of_check _ (by decide +kernel),
+   noAmb_of_check _ (by decide +kernel), noAmb_of_check _ (by decide +kernel)⟩
+
+/-- for the operator table of the live default engine: the parser returns exactly the `WF` trees -/
+theorem default_engine_trees (toks : List Token) (t : Ast) :
+    (parse (Cfg.ofTable defaultTable false) toks = .ok t →
+      WF (Cfg.ofTable defaultTable false) t ∧ yield (Cfg.ofTable defaultTable false) t = toks.map norm) ∧
+    (WF (Cfg.ofTable defaultTable false) t →
+      parse (Cfg.ofTable defaultTable false) (yield (Cfg.ofTable defaultTable false) t) = .ok t) :=
+  ⟨parse_sound _ _ _, parse_roundtrip _ live_no_amb.1 _⟩
+
+theorem legacy_engine_trees (toks : List Token) (t : Ast) :
+    (parse (Cfg.ofTable legacyTable false) toks = .ok t →
+      WF (Cfg.ofTable legacyTable false) t ∧ yield (Cfg.ofTable legacyTable false) t = toks.map norm) ∧
+    (WF (Cfg.ofTable legacyTable false) t →
+      parse (Cfg.ofTable legacyTable false) (yield (Cfg.ofTable legacyTable false) t) = .ok t) :=
+  ⟨parse_sound _ _ _, parse_roundtrip _ live_no_amb.2.2.1 _⟩
+
+/-- `- 1 * 2 + 3 -> 4` under the live default table: `((-1 * 2) + 3) -> 4` -/
+example :
+    parse (Cfg.ofTable defaultTable false)
+      [tOp ['-'], tok .number (.int 1), tOp ['*'], tok .number (.int 2), tOp ['+'], tok .number (.int 3),
+       tOp ['-', '>'], tok .number (.int 4)] =
+    .ok (.binary ['-', '>'] none
+      (.binary ['+'] none
+        (.binary ['*'] none (.unary ['-'] none (.const .number (.int 1))) (.const .number (.int 2)))
+        (.const .number (.int 3)))
+      (.const .number (.int 4))) := by rfl
+end
 
 end Yaql.Props.C02Gen
